@@ -25,8 +25,9 @@ print(sid, 'CONFIRMED' if ok else 'REJECTED', res)
 if ok:
     dst = '/verif/seeded/%s' % sid
     os.makedirs(dst, exist_ok=True)
-    shutil.copy(src + '/patch.diff', dst + '/patch.diff')
-    shutil.copy(src + '/demo.py', dst + '/demo.py')
+    if os.path.realpath(src) != os.path.realpath(dst):
+        shutil.copy(src + '/patch.diff', dst + '/patch.diff')
+        shutil.copy(src + '/demo.py', dst + '/demo.py')
     meta = json.load(open(src + '/meta.json'))
     meta.update({'property': prop, 'confirmed': {'repo_head': sh('git -C /repo rev-parse --short HEAD').stdout.decode().strip(),
                  'demo_on_clean_tree_rc': res['demo_clean_rc'], 'demo_with_change_rc': res['demo_patched_rc'],
